@@ -232,6 +232,11 @@ def tasks(tier, seed):
                     entries = entries + ['simulate']
                 for entry in entries:
                     t.append(dict(part='missing', formula=fi, row=r, col=c, code=code_kind, entry=entry))
+    # (c') the declared code is honoured by every evaluation the constructor makes (audit of the weights, of the logit):
+    # a value 99999 is an ordinary number when another code is declared; the declared code in a weight is refused
+    for col in ('w', 'x1', 'c'):
+        for what in ('default-code-value-under-a-custom-code', 'declared-custom-code'):
+            t.append(dict(part='missing_model', col=col, what=what, fresh=True))
     t.append(dict(part='sticky', fresh=True))
     # expected-error missing-data cases must be fresh; decided statically from the reference
     for task in t:
@@ -263,6 +268,8 @@ def run_task(task):
         _emptied(task, rec)
     elif part == 'missing':
         _missing(task, rec)
+    elif part == 'missing_model':
+        _missing_model(task, rec)
     elif part == 'sticky':
         _sticky(rec)
     return rec.result()
@@ -276,6 +283,8 @@ def on_abort(task, info):
     if task.get('part') == 'missing' and md_expect_error(task):
         return {}
     if task.get('part') in ('plant_engine', 'sticky'):
+        return {}
+    if task.get('part') == 'missing_model' and task.get('what') == 'declared-custom-code':
         return {}
     if task.get('part') == 'emptied':
         # empty data must be refused with the library's own error: a process that dies is not that
@@ -957,6 +966,50 @@ def _missing(task, rec):
                       expected=want, observed=got)
 
 
+def _missing_model(task, rec):
+    """A weighted logit model under a declared missing-data code of -77.  `what` = a cell holds 99999 (an ordinary number under
+    that declaration: the model is accepted and the log likelihood is the weighted sum computed with 99999) / a cell holds
+    -77 in a column every observation reads (refused, no number)."""
+    import numpy as np
+    from vf.engine import make_db, make_biogeme
+    code = -77.0
+    rows = [dict(x1=1.0, x2=-1.0, c=1.0, w=1.5), dict(x1=2.0, x2=0.5, c=2.0, w=0.5), dict(x1=0.5, x2=2.0, c=2.0, w=2.0)]
+    col, what = task['col'], task['what']
+    value = 99999.0 if what == 'default-code-value-under-a-custom-code' else code
+    if col != 'w' and value == 99999.0:
+        # 99999 is not an alternative, and as an attribute it leaves the regular domain of the logit (overflow)
+        rec.case(None, ('missing_model', col, what, 'n/a'), outcome='not-applicable')
+        return
+    rows[1][col] = value
+    ll_t = ('loglogit', ('var', 'c'), ((1, ('*', ('beta', 'b'), ('var', 'x1')), None), (2, ('*', ('beta', 'b'), ('var', 'x2')), None)))
+    w_t = ('var', 'w')
+    sp = {'b': (0.5, None, None, 0)}
+    case = {k: v for k, v in task.items() if k != 'fresh'}
+    rec.retire = True
+    key = ('missing_model', col, what)
+    try:
+        db = make_db(rows, ['x1', 'x2', 'c', 'w'])
+        b = make_biogeme(db, {'log_like': R.Builder(sp).build(ll_t), 'weight': R.Builder(sp).build(w_t)}, missing_data=code)
+        got = float(b.calculate_likelihood(np.array([0.5]), scaled=False))
+    except Exception as e:
+        rec.case(key, (col, what, 'raised', type(e).__name__), outcome=('raised', what))
+        if what == 'default-code-value-under-a-custom-code':
+            rec.violation(f'C12|valid-specification-rejected-{type(e).__name__}|value-99999-under-declared-code--77:column={col}',
+                          f'declared missing-data code -77; column {col} holds the ordinary value 99999 in one row: the weighted model is '
+                          f'rejected with {type(e).__name__}: {str(e)[:200]}', case, observed=repr(e)[:300])
+        return
+    rec.case(key, (col, what, round(got, 6)), outcome=('returned', what))
+    if what == 'declared-custom-code':
+        rec.violation(f'C12|missing-data-code-used-in-calculation|entry=weighted-model:column={col}',
+                      f'declared code -77 stands in column {col}, which every observation reads, yet the log likelihood {got} was returned', case,
+                      observed=got)
+        return
+    want = sum(R.evaluate(w_t, r, {'b': 0.5}) * R.evaluate(ll_t, r, {'b': 0.5}) for r in rows)
+    if not R.close(got, want, rel=1e-9):
+        rec.violation(f'C12|value-with-harmless-missing-code|entry=weighted-model:column={col}', f'LL={got}, expected {want}', case,
+                      expected=want, observed=got)
+
+
 def _sticky(rec):
     """History [evaluation that fails inside the engine, valid evaluation] in one process."""
     from vf.engine import make_db
@@ -1004,6 +1057,8 @@ def replay(case):
         _valid_data(case, rec)
     elif part == 'structural_nodb':
         _structural_nodb(rec)
+    elif part == 'missing_model':
+        _missing_model(case, rec)
     elif part == 'emptied':
         # replayed in a child process: the engine may abort
         import multiprocessing as mp
